@@ -466,7 +466,11 @@ func (f *tmFam) genSync(r *hx.Run) {
 		vers = []uint64{10, 11}
 	}
 	for round := 0; round < rounds; round++ {
-		for n := 1; n <= 7; n++ {
+		maxN := 7
+		if r.Thorough() && round%4 == 0 {
+			maxN = 10
+		}
+		for n := 1; n <= maxN; n++ {
 			for _, ver := range vers {
 				id++
 				r.Case(fmt.Sprintf("tm%s-%d-%d-%d", rn, ver, n, id))
@@ -516,6 +520,41 @@ func (f *tmFam) genSync(r *hx.Run) {
 				_ = legacyTracked
 				f.genBatches(r, g)
 			}
+		}
+		f.genZeroHeight(r, round)
+	}
+}
+
+// genZeroHeight: a trust root below height 0 and headers at height 0 — tendermint's Commit.ValidateBasic looks at the
+// signatures only from height 1 on, so malformed slots reach the tally loop here.
+func (f *tmFam) genZeroHeight(r *hx.Run, round int) {
+	rn := f.rt.name()
+	vers := []uint64{10}
+	if rn == "cosmos" {
+		vers = []uint64{10, 11}
+	}
+	for _, ver := range vers {
+		n := 2 + r.Rng.Intn(3)
+		r.Case(fmt.Sprintf("tm%s-zero-%d-%d", rn, ver, round))
+		g := &tmGen{r: r, f: f, rn: rn, ver: ver, chain: "chain-A", height: -1 - int64(r.Rng.Intn(2))}
+		g.cur = tmRandSet(r, n)
+		gen := &tmHdrSpec{ver: ver, chain: g.chain, height: g.height, vh: "x9", nvh: g.hashOf(g.cur, ver), nilCommit: true}
+		r.Do("genesis " + g.def(gen))
+		ks := []int{17, 16, 15, 8, 20, 2, 3, 31, 0}
+		for _, k := range ks {
+			next := tmRandSet(r, 1+r.Rng.Intn(3))
+			h := int64(0)
+			if g.height >= 0 {
+				h = g.height + 1
+			}
+			s := g.good(h, next)
+			label := g.shape(s, k)
+			res := r.Do("sync " + g.def(s))
+			cls := tmOutcomeClass(res)
+			r.Nontrivial(fmt.Sprintf("%d/zero-height/%s/%s", ver, label, cls))
+			r.Hist("shape.zero-height-" + label)
+			r.Hist("outcome." + cls)
+			g.note(res, h, next)
 		}
 	}
 }
